@@ -15,6 +15,11 @@ CFGS = {
               Types="Core", lenMode="units", ws=False),
     "C": dict(RtmpSubs=["r1"], FlvSubs=["f1"], GopNumR=2, GopNumF=0, CapR=0, CapF=0, Mw=3, Sz=[1], Record=False,
               Types="VidOnly", lenMode="units", ws=False),
+    # relay push targets next to an RTMP subscriber: GOP cache on / off, merge writer on
+    "E": dict(RtmpSubs=["r1"], FlvSubs=[], PushSubs=["t1"], GopNumR=1, GopNumF=0, CapR=0, CapF=0, Mw=0, Sz=[1], Record=False,
+              Types="AllTypes", lenMode="edges", ws=False),
+    "F": dict(RtmpSubs=["r1"], FlvSubs=[], PushSubs=["t1", "t2"], GopNumR=0, GopNumF=0, CapR=0, CapF=0, Mw=5, Sz=[1, 4], Record=False,
+              Types="Core", lenMode="units", ws=False),
     "D": dict(RtmpSubs=["r1", "r2"], FlvSubs=["f1"], GopNumR=2, GopNumF=1, CapR=2, CapF=1, Mw=6, Sz=[1, 4], Record=True,
               Types="AllTypes", lenMode="units", ws=False),
 }
@@ -29,6 +34,7 @@ def write_mc_cfg(ctx, cid, max_pub, max_epoch, mode):
     c = CFGS[cid]
     lines = ["SPECIFICATION Spec", "CONSTANTS",
              "  RtmpSubs = " + tla_set(c["RtmpSubs"]), "  FlvSubs = " + tla_set(c["FlvSubs"]),
+             "  PushSubs = " + tla_set(c.get("PushSubs", [])),
              "  GopNumR = %d" % c["GopNumR"], "  GopNumF = %d" % c["GopNumF"],
              "  CapR = %d" % c["CapR"], "  CapF = %d" % c["CapF"], "  MwBudget = %d" % c["Mw"],
              "  SzPool = " + tla_set(c["Sz"]), "  Record = %s" % ("TRUE" if c["Record"] else "FALSE"),
@@ -50,6 +56,7 @@ def write_trace_cfg(cid):
     c = CFGS[cid]
     lines = ["SPECIFICATION TraceSpec", "CONSTANTS",
              "  RtmpSubs = " + tla_set(c["RtmpSubs"]), "  FlvSubs = " + tla_set(c["FlvSubs"]),
+             "  PushSubs = " + tla_set(c.get("PushSubs", [])),
              "  GopNumR = %d" % c["GopNumR"], "  GopNumF = %d" % c["GopNumF"],
              "  CapR = %d" % c["CapR"], "  CapF = %d" % c["CapF"], "  MwBudget = %d" % (c["Mw"] * 1000),
              "  SzPool = {}", "  Record = %s" % ("TRUE" if c["Record"] else "FALSE"),
@@ -66,7 +73,7 @@ def drv_cfg(cid):
     c = CFGS[cid]
     return {"rtmpSubs": c["RtmpSubs"], "flvSubs": c["FlvSubs"], "gopNumR": c["GopNumR"], "gopNumF": c["GopNumF"],
             "capR": c["CapR"], "capF": c["CapF"], "mwBytes": c["Mw"] * 1000, "record": c["Record"], "ws": c["ws"],
-            "lenMode": c["lenMode"]}
+            "lenMode": c["lenMode"], "pushSubs": c.get("PushSubs", [])}
 
 
 def behaviours(res):
